@@ -11,6 +11,7 @@ package main
 // kills the child process and is attributed to the case by the parent.
 
 import (
+	"sort"
 	"context"
 	"encoding/json"
 	"fmt"
@@ -74,7 +75,69 @@ func mutate(rng *rand.Rand, doc map[string]any) string {
 		m, _ := vehicles[rng.Intn(len(vehicles))].(map[string]any)
 		return m
 	}
-	switch rng.Intn(30) {
+	switch rng.Intn(36) {
+	case 30, 31, 32:
+		// JSON null at a random place of the document (object member or array element, at any depth)
+		type slot struct {
+			m map[string]any
+			k string
+			a []any
+			i int
+			p string
+		}
+		var slots []slot
+		var walk func(x any, path string, depth int)
+		walk = func(x any, path string, depth int) {
+			if depth > 4 {
+				return
+			}
+			switch v := x.(type) {
+			case map[string]any:
+				for _, k := range sortedKeysAny(v) {
+					slots = append(slots, slot{m: v, k: k, p: path + "." + k})
+					walk(v[k], path+"."+k, depth+1)
+				}
+			case []any:
+				for i := range v {
+					if i < 3 { // the first elements stand for all (matrices are large)
+						slots = append(slots, slot{a: v, i: i, p: path + "[]"})
+						walk(v[i], path+"[]", depth+1)
+					}
+				}
+			}
+		}
+		walk(doc, "", 0)
+		if len(slots) == 0 {
+			return "none"
+		}
+		sl := slots[rng.Intn(len(slots))]
+		if sl.m != nil {
+			sl.m[sl.k] = nil
+		} else {
+			sl.a[sl.i] = nil
+		}
+		return "null-at" + stripIDs(sl.p)
+	case 33, 34, 35:
+		// null as a VALUE inside a quantity / capacity map (or the scalar itself turned into such a map)
+		if rng.Intn(2) == 0 {
+			if s := anyStop(); s != nil {
+				if qm, ok := s["quantity"].(map[string]any); ok && len(qm) > 0 {
+					qm[sortedKeysAny(qm)[rng.Intn(len(qm))]] = nil
+				} else {
+					s["quantity"] = map[string]any{"a": nil}
+				}
+				return "null-in-quantity-map"
+			}
+		}
+		if v := anyVeh(); v != nil {
+			if cm, ok := v["capacity"].(map[string]any); ok && len(cm) > 0 {
+				cm[sortedKeysAny(cm)[rng.Intn(len(cm))]] = nil
+			} else {
+				v["capacity"] = map[string]any{"a": nil}
+			}
+			return "null-in-capacity-map"
+		}
+		return "none"
 	case 28, 29:
 		// an item without a name (the empty string is the stop data's "nothing on board": E32)
 		for _, st := range stops {
@@ -310,6 +373,24 @@ func mutate(rng *rand.Rand, doc map[string]any) string {
 		return "no-stops"
 	}
 	return "none"
+}
+
+func sortedKeysAny(m map[string]any) []string {
+	ks := make([]string, 0, len(m))
+	for k := range m {
+		ks = append(ks, k)
+	}
+	sort.Strings(ks)
+	return ks
+}
+
+// stripIDs keeps the shape of a JSON path and drops what varies between cases (resource names and the like stay: they
+// come from a small fixed vocabulary).
+func stripIDs(p string) string {
+	if len(p) > 60 {
+		p = p[:60]
+	}
+	return p
 }
 
 func ctxFor(kind string) (context.Context, context.CancelFunc) {
